@@ -62,6 +62,8 @@ SimNext ==
   \/ \E w \in DOMAIN srv : depth >= gate.lose /\ LoseWorker(w, FALSE) /\ Lab([c |-> "Lose", w |-> w, reason |-> "idle"]) /\ sig' = <<"Lose", SigLose(w, FALSE)>>
   \/ ConnectWorker /\ Lab([c |-> "Connect", w |-> LateSeq[Len(LateSeq) - budget.connects + 1]])
        /\ sig' = <<"Connect", Bag(DOMAIN task, TS), [w \in DOMAIN srv |-> <<srv[w].assigned # {}, srv[w].prefilled # {}>>]>>
+  \/ \E w \in DOMAIN wk : \E x \in Dying(w) : TaskDie(w, x) /\ Lab([c |-> "Die", w |-> w, t |-> x.t])
+       /\ sig' = <<"Die", wk[w].blocked # {}, wk[w].backlog # {}, Cardinality(wk[w].running)>>
 
 SimSpec == SimInit /\ [][SimNext]_<<mvars, depth, lastAct, gate, sig>>
 
